@@ -1,7 +1,8 @@
 (* C12 — PTN game files render/parse losslessly and replay to the right position.
-   Only statements, `exact`, and Print Assumptions live here.  Models: PtnFile.v; proofs: PtnFileIter.v, PtnFileFacts.v. *)
+   Only statements, `exact`, and Print Assumptions live here.  Models: PtnFile.v; proofs: PtnFileIter.v (iterator), PtnFileFacts.v / PtnFileEnum.v / PtnFileRoundtrip.v (tokeniser),
+   PtnFileTotal.v / PtnFileSafe.v / PtnFileTotalThm.v (totality). *)
 From Coq Require Import NArith ZArith List Bool.
-Require Import Board Move GameOver PtnMove Playtak Tps PtnFile PtnFileIter.
+Require Import Board Move GameOver PtnMove Playtak Tps PtnFile PtnFileIter PtnFileFacts PtnFileEnum PtnFileRoundtrip PtnFileTotal PtnFileSafe PtnFileTotalThm.
 Import ListNotations.
 
 (* Once Next has returned false - because a recorded move was illegal (error latch) or the game was over / the record
@@ -35,3 +36,49 @@ Theorem C12_position_at_move_spec : forall basis g n c,
   position_at_move basis g n c = spec_position_at basis g n c.
 Proof. exact position_at_move_spec. Qed.
 Print Assumptions C12_position_at_move_spec.
+
+(* Rendering a game and parsing the text again yields the same game: tags, move numbers, moves with their annotations, comments
+   and results, for every syntactically well-formed game structure, with and without a UTF-8 byte-order mark in front.
+   wf_ptn (PtnFileRoundtrip.v) is purely syntactic: tag names contain no space and no closing bracket, tag values no closing bracket and
+   no double quote; move numbers fit a Go int (any sign); moves are of one of the 65 472 shapes of the notation (PtnMove.moves_at:
+   placements and slides on the 8x8 grid with drops in 1..8 summing to at most 8 - enumerated completely, the bound is legal_shape);
+   annotations are strings over ? ! and the apostrophe; comments contain no closing brace (any other byte, including bytes >= 0x80,
+   0x85 and 0xA0, is allowed); results are accepted by the result recogniser.  Non-vacuity: Example ex_game_wf. *)
+Theorem C12_ptn_render_parse : forall g, wf_ptn g ->
+  parse_ptn (render g) = Ok g /\ parse_ptn (239 :: 187 :: 191 :: render g) = Ok g.
+Proof. exact ptn_render_parse. Qed.
+Print Assumptions C12_ptn_render_parse.
+
+(* ParsePTN never panics, on any byte string (this is the repaired unterminated-comment case among others). *)
+Theorem C12_parse_ptn_total : forall s : list N, parse_ptn s <> Panic.
+Proof. exact parse_ptn_total. Qed.
+Print Assumptions C12_parse_ptn_total.
+
+(* Full statement wanted (DESIGN 5.13):
+     forall s, match parse_ptn s with Ok g => initial_position g <> Panic /\ replay_all g <> Panic | _ => True end.
+   Proved: everything except the TPS parser (Tps.v, owned by C10/C13 and being repaired: on its present text an empty cell or a lone
+   S/C is still Panic), which appears as the premise `parse_tps (TPS tag) <> Panic`: for EVERY byte string, ParsePTN does not panic;
+   if it succeeds, InitialPosition does not panic unless ParseTPS does on the TPS tag; from every position InitialPosition returns -
+   including TPS positions with arbitrarily tall stacks and wrapped reserves - the replay through the Iterator and every
+   PositionAtMove(n, colour) never panic: no index out of range in MovePreallocated, flood-fill fuel sufficient in GameOver, loop
+   fuel sufficient (invariant `safe` of PtnFileSafe.v: size in 3..8, Height/Stacks of length size^2, both colour bitboards inside the
+   board mask). *)
+Theorem C12_ptn_file_total_partial : forall basis (s : list N),
+  match parse_ptn s with
+  | Panic => False
+  | Err => True
+  | Ok g =>
+    (parse_tps basis (find_tag tag_tps (tags g)) <> Panic -> initial_position basis g <> Panic) /\
+    (forall p0, initial_position basis g = Ok p0 -> replay_all basis g p0 <> Panic) /\
+    (parse_tps basis (find_tag tag_tps (tags g)) <> Panic -> forall n c, position_at_move basis g n c <> Panic)
+  end.
+Proof. exact ptn_file_total_partial. Qed.
+Print Assumptions C12_ptn_file_total_partial.
+
+(* Without a TPS tag the statement is unconditional. *)
+Corollary C12_ptn_file_total_no_tps : forall basis (s : list N) g, parse_ptn s = Ok g -> find_tag tag_tps (tags g) = [] ->
+  initial_position basis g <> Panic /\
+  (forall p0, initial_position basis g = Ok p0 -> replay_all basis g p0 <> Panic) /\
+  (forall n c, position_at_move basis g n c <> Panic).
+Proof. exact ptn_file_total_no_tps. Qed.
+Print Assumptions C12_ptn_file_total_no_tps.
